@@ -241,6 +241,17 @@ CHECKS = {
         "Known finding: the balancer ignores modular wrap-around (exact case lists).",
         "DESIGN.md §2 C25",
     ),
+    "C26": (
+        "exploration",
+        "bounded-exhaustive enumeration of pinning constraint sets over value alphabets (BV boundary values at 6 widths, FP boundary patterns of both sorts, string alphabet) x expressions x query kinds on the real frontends; membership oracle (feasible set known by construction)",
+        "Every value returned by eval (n = 1, 3, 300) / batch_eval / min / max for x, x+1, ~x, extensions, extracts, "
+        "concatenations under equality / disjunction / range pins at widths 1, 8, 64, 65 (thorough +2, 128, 256); for f, "
+        "-f, |f| and the pattern read back under bit-pattern and IEEE-equality pins over the FP alphabet; for s, s+s, "
+        "StrLen, StrSubstr under equality pins over the string alphabet; directly, after branch() and from the cache; "
+        "floats compared by bit pattern.",
+        "Exhaustive over the stated alphabets and pin shapes only; every solver runs in a fresh thread (fresh Z3 context).",
+        "DESIGN.md §2 C26",
+    ),
 }
 
 NOT_YET = "check not built yet in this session (planned; see DESIGN.md §2)"
